@@ -29,7 +29,7 @@ CHECKS = {
     "C04": dict(
         pkg="c04", race=False, shard_env={"GO_CONCURRENCY_LIMIT_LOG10ROOT_PRE_COMPUTE": "4096", "GO_CONCURRENCY_LIMIT_SQRT_PRE_COMPUTE": "4096"}, shards=(4, 16), timeout_s=(300, 1800),
         technique="bounds-and-recover monitor after every sample over hostile seeded sample sequences",
-        level_text="One traced wrapper in four is built without a logger (nil = no logging). Gradient2 with a maximum below its default minimum and the minimum left to default: refused by the constructor or, if an instance is handed out, held to the configured maximum. One Vegas / Gradient case in ten asks the constructor for its default maximum (0 / -1 => 1000). A quarter of the Vegas cases carry caller-supplied step / threshold functions (limit/2, limit-3, threshold 0 / -1, +2); one case in five uses a debug-enabled logger; one in twelve an out-of-range smoothing (constructor default applies). After every OnSample (run under recover) of AIMD/Vegas/Gradient/Gradient2, bare and wrapped by windowed/traced limits, the "
+        level_text="Side-by-side cases: 4-12 Vegas limits, each sampled by its own goroutine, every sample a probe (a panic is reported by the driver as a library panic under this property). One traced wrapper in four is built without a logger (nil = no logging). Gradient2 with a maximum below its default minimum and the minimum left to default: refused by the constructor or, if an instance is handed out, held to the configured maximum. One Vegas / Gradient case in ten asks the constructor for its default maximum (0 / -1 => 1000). A quarter of the Vegas cases carry caller-supplied step / threshold functions (limit/2, limit-3, threshold 0 / -1, +2); one case in five uses a debug-enabled logger; one in twelve an out-of-range smoothing (constructor default applies). After every OnSample (run under recover) of AIMD/Vegas/Gradient/Gradient2, bare and wrapped by windowed/traced limits, the "
                    "reported estimate is checked against [max(1,min), max(max,initial)] (AIMD: max(initial, max in-flight seen + increment)); "
                    "int(NaN) shows up as MinInt64 and trips the same bound. Hostile inputs: rtt 0/1/baseline/up to 2^62, in-flight 0..2^31-1, "
                    "drop-only phases; one shard in four each is started with both pre-computed tables enlarged, only the sqrt table, only the log10 table; one case in twelve asks for the default minimum (0) together with a queue allowance that is 0 for small limits "
@@ -43,7 +43,7 @@ CHECKS = {
     "C06": dict(
         pkg="c06", race=False, shard_env={"GO_CONCURRENCY_LIMIT_LOG10ROOT_PRE_COMPUTE": "4096", "GO_CONCURRENCY_LIMIT_SQRT_PRE_COMPUTE": "4096"}, shards=(4, 16), timeout_s=(300, 1800),
         technique="before/after monitor on drop samples from seeded reachable states + bounded-progress monitor on sustained drop runs",
-        level_text="One Vegas sustained run in eight consists of drops that all measured 0 ns (probes are paid for in the bound: 2B+8 samples). One Gradient sustained run in eight uses negative RTTs (a drop is a drop whatever it measured). Vegas with a caller-supplied baseline measurement (SingleMeasurement): drops whose RTT is not below the baseline are applied (at most every second sample of a strictly rising run can be a probe). One Vegas / Gradient case in eight asks for the default maximum (the configured minimum still holds). A quarter of the Vegas cases carry caller-supplied step / threshold functions. From PRNG-generated reachable states (config + random prior history) every drop sample is checked for non-increase of the "
+        level_text="Vegas functions supplied by the caller now include a capped and a switched-off increase step (with the default decrease). One Vegas sustained run in eight consists of drops that all measured 0 ns (probes are paid for in the bound: 2B+8 samples). One Gradient sustained run in eight uses negative RTTs (a drop is a drop whatever it measured). Vegas with a caller-supplied baseline measurement (SingleMeasurement): drops whose RTT is not below the baseline are applied (at most every second sample of a strictly rising run can be a probe). One Vegas / Gradient case in eight asks for the default maximum (the configured minimum still holds). A quarter of the Vegas cases carry caller-supplied step / threshold functions. From PRNG-generated reachable states (config + random prior history) every drop sample is checked for non-increase of the "
                    "reported estimate, AIMD additionally for the exact rule max(1,min(limit-1,floor(limit*ratio))) (exact rational and float floor "
                    "both accepted); sustained drop runs with unique increasing RTTs (so probes are observable) must reach the floor within an "
                    "analytic bound of effective samples; cap without enough effective samples is inconclusive. Concurrent: N drops delivered to one AIMD limit at once must "
@@ -59,7 +59,7 @@ CHECKS = {
     "C07": dict(
         pkg="c07", race=False, shard_env={"GO_CONCURRENCY_LIMIT_LOG10ROOT_PRE_COMPUTE": "4096", "GO_CONCURRENCY_LIMIT_SQRT_PRE_COMPUTE": "4096"}, shards=(4, 16), timeout_s=(300, 1800),
         technique="before/after monitor on app-limited samples + bounded-progress (stuck-detection) monitor on healthy saturated runs from seeded reachable states",
-        level_text="Exact steps: fresh Gradient / Gradient2 limits with smoothing exactly 1 and a fixed queue allowance q grow by q per healthy saturated sample (Gradient also at RTT 0; Gradient2 within one unit, its long-term average of a constant may sit an ulp below it). AIMD healthy runs include successes of seconds up to 2^62 ns; Gradient runs started on the default ceiling 1000 (= size of the square-root table) with the default queue allowance; 8 rounds per concurrent-saturated case. Concurrent healthy rounds: M identical healthy samples delivered to one Vegas / Gradient / Gradient2 limit from 2-7 goroutines next to a goroutine polling EstimatedLimit() end at the estimate a twin reaches sequentially. One Vegas recovery run in five carries a caller-supplied threshold (0 / -1): growth by the default increase step, bound adjusted. A quarter of the non-AIMD recovery runs use a debug-enabled logger; one AIMD run in six asks for the default increment (0 / -1 => 1). Gradient recovery runs with probing disabled last 2100 samples and must never collapse at a probe. From PRNG-generated reachable states (valid config + prior history with drops, zero and huge RTTs): app-limited non-drop samples "
+        level_text="One Vegas recovery run in six uses a caller-supplied baseline measurement (SingleMeasurement). Exact steps: fresh Gradient / Gradient2 limits with smoothing exactly 1 and a fixed queue allowance q grow by q per healthy saturated sample (Gradient also at RTT 0; Gradient2 within one unit, its long-term average of a constant may sit an ulp below it). AIMD healthy runs include successes of seconds up to 2^62 ns; Gradient runs started on the default ceiling 1000 (= size of the square-root table) with the default queue allowance; 8 rounds per concurrent-saturated case. Concurrent healthy rounds: M identical healthy samples delivered to one Vegas / Gradient / Gradient2 limit from 2-7 goroutines next to a goroutine polling EstimatedLimit() end at the estimate a twin reaches sequentially. One Vegas recovery run in five carries a caller-supplied threshold (0 / -1): growth by the default increase step, bound adjusted. A quarter of the non-AIMD recovery runs use a debug-enabled logger; one AIMD run in six asks for the default increment (0 / -1 => 1). Gradient recovery runs with probing disabled last 2100 samples and must never collapse at a probe. From PRNG-generated reachable states (valid config + prior history with drops, zero and huge RTTs): app-limited non-drop samples "
                    "(2*inFlight < reported estimate; AIMD inFlight < limit, including the edge value) must not raise the estimate; healthy saturated "
                    "runs at the baseline RTT must add the increment on every sample (AIMD), grow by at least the queue allowance per non-probe sample "
                    "(Gradient), or bring the reported estimate to ceiling-1 within an analytic sample bound (Vegas, Gradient2); a run that stopped "
@@ -85,13 +85,13 @@ CHECKS = {
     "C15": dict(
         pkg="c15", race=False, shards=(4, 16), timeout_s=(300, 1800),
         technique="online trace monitor over unique-RTT histories: suffix-minimum, reset-order, staleness and probe-spacing checks on RTTNoLoad()",
-        level_text="Reset-horizon check (Vegas): the countdown runs from the last certain reset - once its horizon has passed the baseline must stem from a sample no earlier than the earliest possible probe (0.5 x multiplier x smallest estimate after that reset). Every sample has a unique RTT (level steps up and down), so RTTNoLoad() after each sample names its source sample. The monitor "
+        level_text="Gradient sequences contain short runs of samples that measured nothing (RTT 0): they leave the baseline unset and change nothing about when the next probe is due (a positive-RTT sample that leaves the baseline unset is counted as a probe). Reset-horizon check (Vegas): the countdown runs from the last certain reset - once its horizon has passed the baseline must stem from a sample no earlier than the earliest possible probe (0.5 x multiplier x smallest estimate after that reset). Every sample has a unique RTT (level steps up and down), so RTTNoLoad() after each sample names its source sample. The monitor "
                    "checks: unset or <= current RTT; equals an observed RTT that is the minimum since its own sample; the implied reset point never "
                    "moves backwards; age of the source < multiplier*(max estimate+1)+1 (Vegas) / < 2*interval (Gradient); resets neither overdue nor "
                    "earlier than the documented jitter range allows. Jitter is reproducible through math/rand.Seed. One Vegas case in four is built by "
                    "NewDefaultVegasLimit / NewDefaultVegasLimitWithLimit / the full constructor with probeMultiplier -1 or 0 (documented default 30), half of "
                    "those with the limit pinned by app-limited samples; one in three of the others is handed a caller-supplied baseline measurement. Exploration.",
-        require=["reset_horizon_checks", "cases_with_caller_supplied_baseline_measurement", "cases_with_default_probe_multiplier/NewDefaultVegasLimit", "cases_with_default_probe_multiplier/WithRegistry(probeMultiplier=-1)", "samples", "baseline_resets_observed", "baseline_raises_observed", "baseline_lowerings_observed", "cases/vegas", "cases/gradient"],
+        require=["gradient_runs_of_zero_rtt_samples", "reset_horizon_checks", "cases_with_caller_supplied_baseline_measurement", "cases_with_default_probe_multiplier/NewDefaultVegasLimit", "cases_with_default_probe_multiplier/WithRegistry(probeMultiplier=-1)", "samples", "baseline_resets_observed", "baseline_raises_observed", "baseline_lowerings_observed", "cases/vegas", "cases/gradient"],
         rule="case = (Vegas with max<=40 and multiplier in {1..30} or Gradient with interval in {3,10,50,200,disabled}, math/rand seed, 1500-4000 "
              "samples with unique RTTs whose level steps up/down); non-trivial = at least one reset and one lowering of the baseline observed; "
              "distinct = distinct (config, seed, length, middle RTT).",
@@ -100,13 +100,13 @@ CHECKS = {
     "C16": dict(
         pkg="c16", race=False, shards=(4, 16), timeout_s=(300, 1800),
         technique="per-operation monitor: recording change listeners vs EstimatedLimit() before/after every OnSample/SetLimit",
-        level_text="A second live instance of the same configuration registers its listeners in turn with the first one's; it receives no sample and must never be called. Concurrent explicit sets on a SettableLimit (2-6 goroutines, distinct values, pausing listeners; bare / traced / windowed): at rest every listener holds the reported estimate. Gradient with bounds the constructor accepts although they contradict each other (maximum below the queue allowance or the minimum). Explicit sets to negative values. Gradient / Gradient2 also built below their own minimum; explicit sets to 0. Concurrent variant: in half of the cases 2-8 listeners are registered at the same moment from different goroutines; if any listener heard of a change, all did. For AIMD/Vegas/Gradient/Gradient2/Settable/Fixed and a scripted recorder, bare and under Windowed, Traced and Traced(Windowed): "
+        level_text="Reads through the windowed (and traced) wrapper made by another goroutine while a notification is in progress return the notified value. A second live instance of the same configuration registers its listeners in turn with the first one's; it receives no sample and must never be called. Concurrent explicit sets on a SettableLimit (2-6 goroutines, distinct values, pausing listeners; bare / traced / windowed): at rest every listener holds the reported estimate. Gradient with bounds the constructor accepts although they contradict each other (maximum below the queue allowance or the minimum). Explicit sets to negative values. Gradient / Gradient2 also built below their own minimum; explicit sets to 0. Concurrent variant: in half of the cases 2-8 listeners are registered at the same moment from different goroutines; if any listener heard of a change, all did. For AIMD/Vegas/Gradient/Gradient2/Settable/Fixed and a scripted recorder, bare and under Windowed, Traced and Traced(Windowed): "
                    "around every operation the monitor compares EstimatedLimit() before/after, requires every previously registered listener to "
                    "have been called if it changed, requires the last notified value to equal the new estimate, requires the wrapper's estimate "
                    "to equal the delegate's, and requires Traced to forward the sample unchanged. Listeners are registered at random points. "
                    "A concurrent variant (2-6 goroutines feeding one sample-driven algorithm, listeners pausing before they record) requires every "
                    "listener's last value to equal EstimatedLimit() at quiescence. Exploration.",
-        require=["concurrent_explicit_set_cases", "gradient_cases_with_a_maximum_below_queue_allowance_or_minimum", "cases_built_below_the_minimum", "explicit_sets_to_zero", "concurrent_registration_cases", "operations", "estimate_changes", "notifications_checked", "listeners_registered", "traced_forward_checks",
+        require=["reads_through_the_wrapper_during_a_notification", "concurrent_explicit_set_cases", "gradient_cases_with_a_maximum_below_queue_allowance_or_minimum", "cases_built_below_the_minimum", "explicit_sets_to_zero", "concurrent_registration_cases", "operations", "estimate_changes", "notifications_checked", "listeners_registered", "traced_forward_checks",
                  "concurrent_cases", "concurrent_listener_final_checks"],
         rule="case = (inner limit kind + valid config, wrapper chain, 40-400 ops: OnSample benign/hostile, SetLimit for settable, late NotifyOnChange); "
              "non-trivial = estimate changed at least once with a listener registered; distinct = distinct (config, wrapper, op count, listener count, last op).",
@@ -115,7 +115,7 @@ CHECKS = {
     "C03": dict(
         pkg="c03", race=False, shards=(4, 16), timeout_s=(300, 2400),
         technique="lock-step reference-model monitor over seeded op sequences + porcupine linearizability check of recorded concurrent histories + quiescence invariant",
-        level_text="A lookup partition may be registered under the empty key (with the default lookup function untagged requests are looked up under it). Two predicate strategies built from sub-slices of one array of partitions: additions to one (sequential or concurrent) leave the other admitting its own partitions. Requests that carry no tag or a non-string tag (never the empty tag), the empty pattern among the bundled matcher's patterns; lookup requests racing with the removal of their partition (400 rounds per storm case: admitted <=> the removal reports 1 busy). Matcher patterns and keys include U+0130 (lower-case form longer in UTF-8). Release-window rounds (1500 per case): total at the limit, both partitions at their share; one goroutine releases a token of a while another keeps asking for b until the freed slot can be borrowed and then asks for a - which must be admitted. Sequential: after every acquire/release/SetLimit/add/remove step on both partitioned strategies the grant decision (the iff of the "
+        level_text="A predicate partition moved from one strategy to another (removed, added elsewhere) is accounted where it is registered; a second partition with a name already in use is added and served. A lookup partition may be registered under the empty key (with the default lookup function untagged requests are looked up under it). Two predicate strategies built from sub-slices of one array of partitions: additions to one (sequential or concurrent) leave the other admitting its own partitions. Requests that carry no tag or a non-string tag (never the empty tag), the empty pattern among the bundled matcher's patterns; lookup requests racing with the removal of their partition (400 rounds per storm case: admitted <=> the removal reports 1 busy). Matcher patterns and keys include U+0130 (lower-case form longer in UTF-8). Release-window rounds (1500 per case): total at the limit, both partitions at their share; one goroutine releases a token of a while another keeps asking for b until the freed slot can be borrowed and then asks for a - which must be admitted. Sequential: after every acquire/release/SetLimit/add/remove step on both partitioned strategies the grant decision (the iff of the "
                    "statement), total busy/limit, every bin count and every bin share are compared with an integer-arithmetic reference model "
                    "(dyadic and decimal fractions, zero fractions, unknown/unmatched/empty keys, overlapping predicates, limits set to <=0; lookup partition objects named differently from the key they are registered under, re-adding a registered key "
                    "must be refused; the bundled string matcher in both flavours with patterns in either case). "
@@ -123,7 +123,7 @@ CHECKS = {
                    "same model, bins must be zero at quiescence. Storms: 2-5 concurrent SetLimit callers, and AddPartition racing with a "
                    "limit change (barrier-released, 120 rounds): at quiescence every bin share must be the share of the limit in force. "
                    "Exploration over the sequences and interleavings produced.",
-        require=["lookup_cases_with_a_partition_under_the_empty_key", "strategies_built_from_sub_slices_of_one_array", "acquire_vs_remove_rounds", "release_window_rounds_with_a_borrowed_grant", "acquires", "releases", "setlimits", "partition_adds", "partition_removes", "grants_on_guaranteed_share_while_total_full",
+        require=["partitions_moved_between_strategies", "lookup_cases_with_a_partition_under_the_empty_key", "strategies_built_from_sub_slices_of_one_array", "acquire_vs_remove_rounds", "release_window_rounds_with_a_borrowed_grant", "acquires", "releases", "setlimits", "partition_adds", "partition_removes", "grants_on_guaranteed_share_while_total_full",
                  "grants_borrowing_beyond_share", "requests_for_unknown_or_unmatched_keys", "concurrent_histories", "histories_linearizable",
                  "overlapping_operation_pairs", "sequential_cases/lookup", "sequential_cases/predicate", "storm_quiescent_share_checks", "storm_add_vs_setlimit_rounds", "partition_duplicate_adds_refused"],
         rule="sequential case = (strategy kind, 1-5 partitions with fractions k/32 or k/100 summing <=1, total limit 1-50, 20-120 ops); concurrent case = "
@@ -135,7 +135,7 @@ CHECKS = {
     "C14": dict(
         pkg="c14", race=False, shards=(4, 16), timeout_s=(300, 1800),
         technique="event-sequence monitor over test doubles (recording limiter/listener/handler/invoker/stream, scripted classifiers)",
-        level_text="StreamServerInfo with every combination of IsClientStream / IsServerStream. One limit-exceeded classifier in four returns a nil error (it only chooses the code). Calls whose own result is the error of their ended context (context.Canceled / DeadlineExceeded, verbatim); stream operations returning io.EOF, io.ErrUnexpectedEOF, context errors and status errors, followed by further operations on the same wrapper. Shared-interceptor cases use 8-64 goroutines over a real DefaultLimiter with the default limit-exceeded classifier under the scenario watchdog (a wedged limiter is classified as a library-mutex deadlock); default-direction cases: 20 receives parked in the transport, a send is still admitted. One stream in five runs behind another stream interceptor of this package (each gates every operation). Every intercepted call is judged from the recorded event sequence: exactly one Acquire, on the limiter configured for that "
+        level_text="One stream handler in three returns nil (after operations that may have been refused). StreamServerInfo with every combination of IsClientStream / IsServerStream. One limit-exceeded classifier in four returns a nil error (it only chooses the code). Calls whose own result is the error of their ended context (context.Canceled / DeadlineExceeded, verbatim); stream operations returning io.EOF, io.ErrUnexpectedEOF, context errors and status errors, followed by further operations on the same wrapper. Shared-interceptor cases use 8-64 goroutines over a real DefaultLimiter with the default limit-exceeded classifier under the scenario watchdog (a wedged limiter is classified as a library-mutex deadlock); default-direction cases: 20 receives parked in the transport, a send is still admitted. One stream in five runs behind another stream interceptor of this package (each gates every operation). Every intercepted call is judged from the recorded event sequence: exactly one Acquire, on the limiter configured for that "
                    "operation (unary / receive / send), before the wrapped call; wrapped call invoked iff granted; exactly one completion whose "
                    "outcome equals the consulted classifier's result (success for an error-free stream op; default classifiers when none configured); "
                    "result and error returned by identity; on refusal nothing else touched and the status code equals the limit-exceeded "
@@ -143,7 +143,7 @@ CHECKS = {
                    "error / limiter objects (identity). The two stream response classifiers are configured independently (a classifier serves one direction only; the other runs on the default); a second stream through "
                    "another interceptor is opened and used in the middle of the first stream's handler. All option combinations incl. defaults, random RecvMsg/SendMsg sequences, plus a shared interceptor over a real "
                    "DefaultLimiter whose in-flight must return to 0. Exploration over seeded inputs.",
-        require=["limit_exceeded_classifiers_returning_a_nil_error", "calls_whose_result_is_the_error_of_their_ended_context", "stream_ops_returning_io_EOF", "default_direction_cases", "streams_behind_another_stream_interceptor", "stream_ops_with_only_one_response_classifier_configured", "streams_opened_while_another_is_open", "unary_calls", "stream_ops", "granted_calls_checked", "refused_calls_checked", "send_ops_on_recording_send_limiter",
+        require=["stream_handlers_returning_nil", "limit_exceeded_classifiers_returning_a_nil_error", "calls_whose_result_is_the_error_of_their_ended_context", "stream_ops_returning_io_EOF", "default_direction_cases", "streams_behind_another_stream_interceptor", "stream_ops_with_only_one_response_classifier_configured", "streams_opened_while_another_is_open", "unary_calls", "stream_ops", "granted_calls_checked", "refused_calls_checked", "send_ops_on_recording_send_limiter",
                  "recv_ops_on_recording_recv_limiter", "shared_interceptor_calls", "calls_with_a_dead_context"],
         rule="case = unary client/server call (grant/refuse, handler result, classifier result, option subset) or a stream with 1-12 RecvMsg/SendMsg ops "
              "(each with its own grant/error/classifier result) or a shared-interceptor stress; non-trivial = every judged case; distinct = distinct "
@@ -154,7 +154,7 @@ CHECKS = {
     "C20": dict(
         pkg="c20", race=False, shards=(8, 16), timeout_s=(600, 3000),
         technique="recording MetricRegistry + lock-step model of emitted samples/gauges; backend-content and dogstatsd wire-capture monitors; poller life-cycle monitor (goroutine census + poll counters)",
-        level_text="Limit moved from outside (SettableLimit): after the next window the algorithm's limit gauge and the strategy's limit gauge both report the new value. Address-built datadog registry: samples offered after Start / Stop still reach the loop-back agent (listener registered before and after); lookup table changes (AddPartition / RemovePartition of a key) while tokens are outstanding - per-partition in-flight samples still equal the bin's own count. Concurrent life-cycle cases begin with 25 rounds of simultaneous Starts (spin barrier): one poller, Stop returns, none left; forwarded metric ids include ones that begin with the prefix. Half of the polled-gauge cases register two of the three gauges after Start (the early gauge's poll count is the clock: 40 more polls without the late ones being polled is a violation). Limiter-path cases: the in-flight sample an instrumented limit emits per window equals the peak at admission incl. dropped requests, drop counter iff the window had a drop; concurrent limiter cases: no in-flight figure above the constant limit. With a recording registry every admission decision of Simple/Precise/Lookup/Predicate strategies must emit exactly the in-flight "
+        level_text="A windowed limit over an instrumented algorithm: the delegate's drop counter moves iff the window it was handed contained a drop, wherever; limiter-path cases include ignored completions and windows that follow abandoned (ignored) requests. Limit moved from outside (SettableLimit): after the next window the algorithm's limit gauge and the strategy's limit gauge both report the new value. Address-built datadog registry: samples offered after Start / Stop still reach the loop-back agent (listener registered before and after); lookup table changes (AddPartition / RemovePartition of a key) while tokens are outstanding - per-partition in-flight samples still equal the bin's own count. Concurrent life-cycle cases begin with 25 rounds of simultaneous Starts (spin barrier): one poller, Stop returns, none left; forwarded metric ids include ones that begin with the prefix. Half of the polled-gauge cases register two of the three gauges after Start (the early gauge's poll count is the clock: 40 more polls without the late ones being polled is a violation). Limiter-path cases: the in-flight sample an instrumented limit emits per window equals the peak at admission incl. dropped requests, drop counter iff the window had a drop; concurrent limiter cases: no in-flight figure above the constant limit. With a recording registry every admission decision of Simple/Precise/Lookup/Predicate strategies must emit exactly the in-flight "
                    "(bin) count at the decision, gauges must equal the enforced limit/shares after every step, every OnSample of every limit kind must "
                    "emit rtt and in-flight once and the drop counter iff dropped under the prefixed names. The bundled registries are checked through the "
                    "go-metrics registry contents and the captured dogstatsd wire lines (kind suffix, prefixed name, value), the address-based datadog "
@@ -164,7 +164,7 @@ CHECKS = {
                    "Start/Stop/RegisterGauge sequences (sequential and concurrent) with a census of live poller goroutines (1 iff started, never 2, 0 "
                    "after Stop returns), frozen supplier counts while stopped, and a watchdog that classifies a hang as the Stop-vs-tick wait-for cycle "
                    "from the goroutine dump. Exploration.",
-        require=["limit_gauges_compared_after_an_external_set", "lookup_table_changes_with_tokens_outstanding", "samples_after_a_stop_checked_via_udp", "simultaneous_start_rounds", "gauges_registered_after_start", "limiter_path_windows", "concurrent_limiter_inflight_samples", "queue_gauge_dynamic_cases", "strategy_decisions", "partition_decisions", "limit_samples", "limit_drop_samples", "gauge_reads", "forwarded_samples_checked",
+        require=["windows_handed_to_an_instrumented_delegate", "limiter_path_windows_after_abandoned_requests", "limit_gauges_compared_after_an_external_set", "lookup_table_changes_with_tokens_outstanding", "samples_after_a_stop_checked_via_udp", "simultaneous_start_rounds", "gauges_registered_after_start", "limiter_path_windows", "concurrent_limiter_inflight_samples", "queue_gauge_dynamic_cases", "strategy_decisions", "partition_decisions", "limit_samples", "limit_drop_samples", "gauge_reads", "forwarded_samples_checked",
                  "polled_gauge_checks", "forwarded_samples_checked_via_udp", "lifecycle_states_checked", "frozen_poll_count_checks", "live_poll_observations", "lifecycle_cases/gometrics",
                  "lifecycle_cases/datadog", "concurrent_lifecycle_cases", "concurrent_strategy_sample_rounds"],
         rule="case kinds: strategy op sequence (30-80 ops), partitioned strategy op sequence, limit sample sequence (30-90 samples, every limit kind incl. "
@@ -176,14 +176,14 @@ CHECKS = {
     "C09": dict(
         pkg="c09", race=False, shards=(4, 16), timeout_s=(600, 3000),
         technique="recording delegate limit + reference fold, DefaultLimiter driven on a synctest virtual clock (exact RTTs / window boundaries), WindowedLimit on explicit timestamps",
-        level_text="Simultaneous completions: what is not part of the delivered window must be pending in the next one, all of it (no completion is wiped by the reset another completion's update performs). Admission-inside-a-release cases: a fixed-capacity strategy whose tokens call back right after giving their unit back; every completion (success / ignore / drop) is followed at that instant by an admission - no delivered window may report more in flight than the capacity. The algorithm also sits behind the traced decorator (debug logger on / off). Three default-limiter cases in four go through a wrapper (queue FIFO/LIFO, deprecated constructors, blocking, deadline) whose listeners forward the outcome. Concurrent windowed variant: while a slow (yielding) delegate is handed window 1 another goroutine reports samples incl. a drop; exactly one delivered window carries the drop flag. A recording core.Limit receives what the limiter/windowed limit delivers; a reference fold of the qualifying completions since the last "
+        level_text="Hand-off at the time-out instant: queue limiter over the default limiter, the holder completes at the very instant the queued caller's time-out fires (hand-off paused at its schedule point), everybody completes successfully - no delivered window may carry the drop flag. Simultaneous completions: what is not part of the delivered window must be pending in the next one, all of it (no completion is wiped by the reset another completion's update performs). Admission-inside-a-release cases: a fixed-capacity strategy whose tokens call back right after giving their unit back; every completion (success / ignore / drop) is followed at that instant by an admission - no delivered window may report more in flight than the capacity. The algorithm also sits behind the traced decorator (debug logger on / off). Three default-limiter cases in four go through a wrapper (queue FIFO/LIFO, deprecated constructors, blocking, deadline) whose listeners forward the outcome. Concurrent windowed variant: while a slow (yielding) delegate is handed window 1 another goroutine reports samples incl. a drop; exactly one delivered window carries the drop flag. A recording core.Limit receives what the limiter/windowed limit delivers; a reference fold of the qualifying completions since the last "
                    "delivery runs beside it. Separate sub-oracles: delivered values differ from fold (min RTT resp. mean RTT, max in-flight, drop flag iff any "
                    "drop in the window), delivery of an unready window, delivery before the previous window's period elapsed, ready window not "
                    "delivered at a qualifying completion, delivery triggered by an ignored / below-threshold completion. A third variant completes 2-3 "
                    "tokens at the same virtual instant from different goroutines (yield at the verif point before the update lock) and keeps the set of "
                    "candidate pending folds: a delivery must be candidate + non-empty subset of the simultaneous completions with more than windowSize "
                    "successes. Exploration over seeded histories.",
-        require=["admission_inside_release_cases", "default_limiter_cases_with_the_algorithm_behind_a_traced_limit", "default_limiter_cases_through_a_wrapper", "windowed_concurrent_rounds", "default_completions", "default_windows_delivered", "default_nonqualifying_completions", "default_windows_with_drop_before_last_completion",
+        require=["handoffs_at_the_timeout_instant/caller-granted", "windows_delivered_in_handoff_at_timeout_cases", "admission_inside_release_cases", "default_limiter_cases_with_the_algorithm_behind_a_traced_limit", "default_limiter_cases_through_a_wrapper", "windowed_concurrent_rounds", "default_completions", "default_windows_delivered", "default_nonqualifying_completions", "default_windows_with_drop_before_last_completion",
                  "windowed_samples", "windowed_windows_delivered", "windowed_samples_below_threshold", "windowed_windows_with_drop_before_last_sample",
                  "windowed_drop_only_windows_delivered", "simultaneous_rounds", "simultaneous_windows_delivered", "simultaneous_rounds_at_the_readiness_boundary"],
         rule="default: 150-650 acquire/sleep/complete steps with 1-6 holders, outcomes success/ignore/dropped, durations 1ns-8ms, windowSize 10-30, "
@@ -214,7 +214,7 @@ CHECKS = {
     "C11": dict(
         pkg="c11", race=False, shards=(4, 16), timeout_s=(600, 3000),
         technique="grant-order monitor in a synctest bubble: arrival order fixed by quiescence between arrivals, observed grant vs FIFO/LIFO model of still-waiting callers",
-        level_text="Release while the limiter lock is busy (a third caller paused before its push): the completion, once returned, has offered its unit to the queue - a caller arriving afterwards cannot overtake. Evicting queues without any backlog time-out (MaxBacklogTimeout < 0). Arrivals with an already-done context (eviction on: turned away at once, never part of the line) and with a context deadline that passes while queued (eviction off: the caller keeps its place and is served). A release landing on an arriving caller (verif point before the push): the unit goes to the caller the order designates among the queued ones and the newcomer. Capacity 1 is held; waiters arrive one at a time with synctest.Wait() between arrivals (arrival order is a fact); PRNG interleaves "
+        level_text="Default ordering without a backlog time-out among the constructors. Release while the limiter lock is busy (a third caller paused before its push): the completion, once returned, has offered its unit to the queue - a caller arriving afterwards cannot overtake. Evicting queues without any backlog time-out (MaxBacklogTimeout < 0). Arrivals with an already-done context (eviction on: turned away at once, never part of the line) and with a context deadline that passes while queued (eviction off: the caller keeps its place and is served). A release landing on an arriving caller (verif point before the push): the unit goes to the caller the order designates among the queued ones and the newcomer. Capacity 1 is held; waiters arrive one at a time with synctest.Wait() between arrivals (arrival order is a fact); PRNG interleaves "
                    "arrivals, cancellations (eviction on), staggered time-outs, releases and releases whose hand-off attempt the (injected) delegate "
                    "refuses; after each release exactly one waiter must be granted and it "
                    "must be the oldest (FIFO) / newest (LIFO) still waiting. Releases that coincide with a departure - the holder completes in the same breath as a "
@@ -231,7 +231,7 @@ CHECKS = {
     "C13": dict(
         pkg="c13", race=False, shards=(4, 16), timeout_s=(600, 3000),
         technique="exact-instant monitor on a synctest virtual clock: return instant of every blocked Acquire vs its bound, busy count after refusals",
-        level_text="Cancellation of a caller that is not the longest-waiting one (2-3 blocked, nothing released); deadlines expressed in fixed zones east and west of UTC. Ordered pools built by pool.NewPool (explicit time-out; 0 / negative = the documented default of one second); cancellation immediately followed by the release (nothing in between), optionally with a second caller queued. After-a-cancelled-waiter scenarios: a second caller arriving after another caller was cancelled is refused at exactly its own bound; cancel-at-handoff scenarios (queue, eviction on): the call returns at the instant of release and cancellation. Real-time release-in-progress cases: a caller arriving while another caller's completion is in progress (slow delegate listener) is still bounded by its context / the deadline. For blocking (timeout 0/T), deadline and queue (FIFO/LIFO, eviction on/off) limiters with capacity exhausted and no release, the "
+        level_text="The time-out argument left to default (0 = one second) with and without eviction; ordered fixed pools (pool.NewFixedPool): a blocked caller is refused at exactly the pool's time-out whatever the window arguments. Cancellation of a caller that is not the longest-waiting one (2-3 blocked, nothing released); deadlines expressed in fixed zones east and west of UTC. Ordered pools built by pool.NewPool (explicit time-out; 0 / negative = the documented default of one second); cancellation immediately followed by the release (nothing in between), optionally with a second caller queued. After-a-cancelled-waiter scenarios: a second caller arriving after another caller was cancelled is refused at exactly its own bound; cancel-at-handoff scenarios (queue, eviction on): the call returns at the instant of release and cancellation. Real-time release-in-progress cases: a caller arriving while another caller's completion is in progress (slow delegate listener) is still bounded by its context / the deadline. For blocking (timeout 0/T), deadline and queue (FIFO/LIFO, eviction on/off) limiters with capacity exhausted and no release, the "
                    "blocked call must return refused at exactly its bound (backlog timeout, deadline, cancellation instant; cancellation ignored by the "
                    "queue limiter without eviction) - not earlier, not later - with cancellation placed before / at / after arrival and at / after the "
                    "bound, arrivals before / at / after / less than a millisecond (down to 1 ns) before the deadline; calls for which no bound applies must still be blocked; already-cancelled "
@@ -241,7 +241,7 @@ CHECKS = {
                    "the backlog time-out disabled (negative) are bounded by the context only (eviction on) or not at all; deadline limiters with an 'effectively never' "
                    "deadline (beyond 2262, e.g. now+MaxInt64ns, 9999-12-31) must grant free capacity and keep a call blocked until its context ends or capacity is offered. "
                    "Exploration over a grid x PRNG durations.",
-        require=["cancel_of_a_newer_waiter_scenarios", "ordered_pool_cases", "cancel_immediately_followed_by_release_scenarios", "after_cancelled_waiter_scenarios", "cancel_at_handoff_scenarios", "release_in_progress_cases", "scenarios", "exact_return_instants_checked", "refused_calls_hold_nothing_checks", "calls_correctly_still_blocked",
+        require=["default_timeout_cases", "fixed_pool_bound_cases", "cancel_of_a_newer_waiter_scenarios", "ordered_pool_cases", "cancel_immediately_followed_by_release_scenarios", "after_cancelled_waiter_scenarios", "cancel_at_handoff_scenarios", "release_in_progress_cases", "scenarios", "exact_return_instants_checked", "refused_calls_hold_nothing_checks", "calls_correctly_still_blocked",
                  "calls_exactly_at_the_deadline", "family/queue", "family/deadline", "family/blocking", "contexts_ending_by_their_own_deadline", "two_waiter_scenarios", "slow_delegate_scenarios", "far_deadline_scenarios"],
         rule="grid = limiter kind (9) x cancel placement (6) x arrival placement (3, deadline only) x capacity exhausted/free, each with PRNG timeout "
              "(1ms-1h), arrival and cancel instants; quick 20 per cell, thorough 5000; all cases non-trivial; distinct = distinct (cell, instants).",
@@ -250,7 +250,7 @@ CHECKS = {
     "C12": dict(
         pkg="c12", race=False, shards=(4, 16), timeout_s=(600, 3000),
         technique="quiescence-invariant monitor in a synctest bubble: queue_size gauge (recording registry) = backlog length (verif accessor) = callers inside Acquire <= bound; zero-virtual-time refusal at a full backlog",
-        level_text="The bound is also checked through the deprecated FIFO / LIFO constructors (explicit and default time-out) and a configuration decoded by encoding/json. Releases whose hand-off the delegate refuses (GateLimiter.RefuseNext), after which the caller the hand-off was for is cancelled / times out. A quarter of the scenarios run with the backlog time-out disabled (negative). Release ops that cancel the hand-off target while the delegate is being asked; pool cases (FixedPool / Pool x FIFO/LIFO): exactly the configured backlog bound of callers waits, further ones are refused at once, queue gauges agree. One single arrival in four comes with an already-done context. PRNG sequences of single arrivals, simultaneous bursts, releases (all outcomes), cancellations and time advances (across backlog "
+        level_text="The real-time stress recognises callers that are blocked inside Acquire without being in the backlog (no return for six seconds, picture confirmed three times) instead of waiting for them. The bound is also checked through the deprecated FIFO / LIFO constructors (explicit and default time-out) and a configuration decoded by encoding/json. Releases whose hand-off the delegate refuses (GateLimiter.RefuseNext), after which the caller the hand-off was for is cancelled / times out. A quarter of the scenarios run with the backlog time-out disabled (negative). Release ops that cancel the hand-off target while the delegate is being asked; pool cases (FixedPool / Pool x FIFO/LIFO): exactly the configured backlog bound of callers waits, further ones are refused at once, queue gauges agree. One single arrival in four comes with an already-done context. PRNG sequences of single arrivals, simultaneous bursts, releases (all outcomes), cancellations and time advances (across backlog "
                    "time-outs) on the queue limiter (FIFO/LIFO/default, eviction on/off, backlog 1-4, capacity 1-2), optionally with yields at the "
                    "check->push, push->select and hand-off windows. At every quiescent point the public queue_size gauge, the backlog length and the "
                    "number of callers whose Acquire has not returned must agree and stay within the bound; an arrival at a full backlog must be "
@@ -263,7 +263,7 @@ CHECKS = {
     "C19": dict(
         pkg="c19", race=False, shards=(6, 16), timeout_s=(600, 3000),
         technique="holder-bracket monitor + every-caller-granted-within-timeout monitor on a synctest virtual clock; real-time stress with stuck-state classification",
-        level_text="Generic random pools over a delegate whose listener is slow to give the unit back (point slow-inner-release; one release-at-point case in four is forced onto the instrumented-delegate points). Generic random pools are also hit right after the caller's first / second refused delegate attempt (instrumented delegate); after every stress run the pool must hand out its full limit again. One configuration in five has a backlog of 11-24 (larger than the smallest sample window). Two-releases / two-parked cases over the simple strategy: the second holder completes while the first hand-off is inside the strategy (verif point) - both parked callers are served. FixedPool and Pool x {random, FIFO, LIFO}, limit 1-4, callers = limit+1..limit+backlog with PRNG arrival instants (also all "
+        level_text="In half of the generic-pool stress runs two goroutines keep describing the pool's limiter (String); a stress run that stops progressing with goroutines waiting for a library mutex is reported as a deadlock. Generic random pools over a delegate whose listener is slow to give the unit back (point slow-inner-release; one release-at-point case in four is forced onto the instrumented-delegate points). Generic random pools are also hit right after the caller's first / second refused delegate attempt (instrumented delegate); after every stress run the pool must hand out its full limit again. One configuration in five has a backlog of 11-24 (larger than the smallest sample window). Two-releases / two-parked cases over the simple strategy: the second holder completes while the first hand-off is inside the strategy (verif point) - both parked callers are served. FixedPool and Pool x {random, FIFO, LIFO}, limit 1-4, callers = limit+1..limit+backlog with PRNG arrival instants (also all "
                    "simultaneous) and hold times (also zero), a quarter of the callers cancelling their context while possibly queued, time-out above the "
                    "longest possible wait (random pools: poll period 0 / 7 ms / long): a harness bracket counter (a lower bound of the true "
                    "holders) must never exceed the limit, every caller that did not cancel must be granted (queue pools: within the time-out of its arrival, exact "
@@ -297,12 +297,12 @@ CHECKS = {
     "C05": dict(
         pkg="c05", race=False, shards=(4, 16), timeout_s=(600, 3000),
         technique="recording limit (scripted or wrapping a real algorithm) + equality monitor on the strategy's enforced limit and partition shares after construction and after every sample-driven update (synctest clock closes windows deterministically)",
-        level_text="Decimal fractions (k/100): the share is the round-up of total x fraction evaluated on the float64 actually passed - the round-up of the float product or of the exact product (big.Rat), usually the same number. The pollers of the concurrent variant also call the partition objects' own accessors (Limit, BusyCount, IsLimitExceeded, String). One lookup stack in five has no named partition left (removed after construction): updates still reach the strategy. One case in four builds the strategy with the very number the algorithm starts from (also 0 / negative); one case in twenty goes through NewDefaultLimiterWithDefaults with a strategy built with another number. One case in six uses an algorithm whose estimate is changed from outside between windows (SettableLimit) - after the next completed window enforcement must follow. DefaultLimiter over Simple/Precise/Lookup/Predicate with a recording core.Limit whose estimate trajectory contains 0, negative, "
+        level_text="Limiters are built without a logger (nil), with the no-op and with a debug-enabled one; a predicate partition taken out, missing a change of the total and put back has the share of the total now in force. Decimal fractions (k/100): the share is the round-up of total x fraction evaluated on the float64 actually passed - the round-up of the float product or of the exact product (big.Rat), usually the same number. The pollers of the concurrent variant also call the partition objects' own accessors (Limit, BusyCount, IsLimitExceeded, String). One lookup stack in five has no named partition left (removed after construction): updates still reach the strategy. One case in four builds the strategy with the very number the algorithm starts from (also 0 / negative); one case in twenty goes through NewDefaultLimiterWithDefaults with a strategy built with another number. One case in six uses an algorithm whose estimate is changed from outside between windows (SettableLimit) - after the next completed window enforcement must follow. DefaultLimiter over Simple/Precise/Lookup/Predicate with a recording core.Limit whose estimate trajectory contains 0, negative, "
                    "repeated and large values (or a real AIMD/Vegas/Gradient2 underneath): right after construction and after every completion during which "
                    "the recorder received an OnSample, the strategy's limit must equal max(1, the estimate the recorder returned) and every partition "
                    "share max(1, ceil(limit x fraction)) of that same value; the lookup strategy's unknown bucket is probed behaviourally. A concurrent "
                    "variant (8 goroutines completing) checks the equality at quiescence. Exploration.",
-        require=["decimal_share_checks", "defaults_constructor_cases", "out_of_band_estimate_changes", "enforcement_checks", "share_checks", "updates_observed", "unknown_bucket_probes", "concurrent_scenarios", "add_vs_update_rounds_with_an_update",
+        require=["limiters_built_without_a_logger", "shares_of_partitions_put_back_after_a_limit_change", "decimal_share_checks", "defaults_constructor_cases", "out_of_band_estimate_changes", "enforcement_checks", "share_checks", "updates_observed", "unknown_bucket_probes", "concurrent_scenarios", "add_vs_update_rounds_with_an_update",
                  "scenarios/simple", "scenarios/precise", "scenarios/lookup", "scenarios/predicate"],
         rule="scenario = (strategy kind with dyadic fractions, scripted trajectory or real algorithm, windowSize 10-13, 150-550 driver steps or 8x40 "
              "concurrent iterations); non-trivial = at least two updates observed; distinct = distinct (config, update count).",
